@@ -22,7 +22,7 @@ type Env struct {
 	head          *ssa.BasicBlock
 	localOverride map[*ssa.Phi]Val
 	retBlock      *ssa.BasicBlock // postcondition at this return site: locals must be defined on every path to it
-	allocPre      string // for fresh(): allocation counter before the call
+	allocPre      string          // for fresh(): allocation counter before the call
 	probes        []Probe
 	depth         int
 	outOfScope    *bool // set when a local is referenced at a point its definition does not dominate (shared by clones)
@@ -181,6 +181,44 @@ func (env *Env) eval(e Expr) (SVal, error) {
 	case *EBin:
 		return env.binary(e)
 	case *EQuant:
+		if e.In != nil {
+			// The bound variable of the SMT quantifier is the absolute index into the backing
+			// array, so that the element read is the trigger: an element read in the code
+			// (whatever arithmetic forms its index) instantiates the quantifier.
+			sv, err := env.evalRV(e.In)
+			if err != nil {
+				return SVal{}, err
+			}
+			st, ok := sv.Typ.Underlying().(*types.Slice)
+			if sv.Typ == nil || !ok {
+				return SVal{}, fmt.Errorf("forall x in S: S must be a slice")
+			}
+			x.uniq++
+			j := sym(fmt.Sprintf("q!%s!%d", e.Vars[0].Name, x.uniq))
+			n := env.clone()
+			c := cell{root: st.Elem(), elem: true, obj: sv.L[0], idx: j}
+			ev, err := n.rv(SVal{place: &placeT{c: c, typ: st.Elem()}})
+			if err != nil {
+				return SVal{}, err
+			}
+			n.vars[e.Vars[0].Name] = ev.Val
+			body, err := n.evalBool(e.Body)
+			if err != nil {
+				return SVal{}, err
+			}
+			rng := And("(<= "+sv.L[1]+" "+j+")", "(< "+j+" "+add(sv.L[1], sv.L[2])+")")
+			pat := ""
+			if len(ev.L) > 0 && strings.Contains(ev.L[0], j) {
+				pat = ev.L[0]
+			}
+			if e.Forall {
+				if pat != "" {
+					return boolV("(forall ((" + j + " Int)) (! " + Implies(rng, body) + " :pattern (" + pat + ")))"), nil
+				}
+				return boolV("(forall ((" + j + " Int)) " + Implies(rng, body) + ")"), nil
+			}
+			return boolV("(exists ((" + j + " Int)) " + And(rng, body) + ")"), nil
+		}
 		n := env.clone()
 		var decls []string
 		for _, b := range e.Vars {
